@@ -134,6 +134,36 @@ def gen_engine():
         "story/control_logic.rs:perform_logic_and_flow_control:->external"])
     host_ok = sites == expected
     facts.update({"engine.host_call_sites": sites, "engine.host_calls_confined": host_ok})
+    # 13. who opens / closes the observation batch, and who takes / restores / discards the look-ahead snapshot:
+    # the structural theorems (Shell/BatchShape.v, BatchClosed.v, PatchShape.v, PatchInv.v, Rewind.v) are about a model
+    # in which only continue_internal and its loop step do
+    struct = []
+    for root_, _, fs in os.walk(rt):
+        for f in sorted(fs):
+            if not f.endswith(".rs") or f == "verif.rs":
+                continue
+            rel = os.path.relpath(os.path.join(root_, f), rt)
+            txt = strip_comments(open(os.path.join(root_, f)).read())
+            for pat, tag in ((r"\.start_variable_observation\(", "batch-open"),
+                             (r"\.complete_variable_observation\(", "batch-close"),
+                             (r"\bself\.state_snapshot\(\)", "snapshot"),
+                             (r"\bself\.restore_state_snapshot\(\)", "restore"),
+                             (r"\bself\.discard_snapshot\(\)", "discard"),
+                             (r"\.copy_and_start_patching\(", "copy")):
+                for m in re.finditer(pat, txt):
+                    fn = enclosing_fn(txt, m.start())
+                    if fn in ("state_snapshot", "restore_state_snapshot", "discard_snapshot") and tag in ("snapshot", "restore", "discard"):
+                        continue
+                    struct.append("%s:%s:%s" % (rel, fn, tag))
+    struct.sort()
+    struct_expected = sorted([
+        "story/progress.rs:continue_internal:batch-open", "story/progress.rs:continue_internal:batch-close",
+        "story/progress.rs:continue_internal:restore",
+        "story/progress.rs:continue_single_step:restore", "story/progress.rs:continue_single_step:discard",
+        "story/progress.rs:continue_single_step:discard", "story/progress.rs:continue_single_step:snapshot",
+        "story/state.rs:state_snapshot:copy"])
+    struct_ok = struct == struct_expected
+    facts.update({"engine.lookahead_structure_sites": struct, "engine.lookahead_structure_confined": struct_ok})
     b = lambda x: "true" if x else "false"
     out = ("(* GENERATED by tools/gen_engine.py from runtime/src/{story_state.rs,story/variable_observer.rs,"
            "story/control_logic.rs} — do not edit *)\n"
@@ -154,5 +184,8 @@ def gen_engine():
            "(* the engine calls into the host (observer / error handler / external function) at exactly the places the\n"
            "   model logs an event: notify_variable_changed (from continue_internal and set_variable), the delivery block\n"
            "   of continue_internal, call_external_function (from perform_logic_and_flow_control) *)\n"
-           f"Definition host_calls_confined : bool := {b(host_ok)}.\n")
+           f"Definition host_calls_confined : bool := {b(host_ok)}.\n"
+           "(* the observation batch is opened / closed, and the look-ahead snapshot taken / restored / discarded, by\n"
+           "   continue_internal and continue_single_step only (copy_and_start_patching from state_snapshot only) *)\n"
+           f"Definition lookahead_structure_confined : bool := {b(struct_ok)}.\n")
     return write_if_changed("theories/Gen/EngineGen.v", out), facts
